@@ -184,4 +184,25 @@ PROPS["C13"] = dict(level="proof", module="Texel.Properties.C13", translators=["
                "pre-existing targets with overwrite) and every target table is compared with what snap.SnapPolygon returns in-process.",
     level_note="Trusted: Lean kernel, the two extractors; the binary's behaviour end to end is validated by differential runs, not proved.")
 
+PROPS["C14"] = dict(level="proof", module="Texel.Properties.C14", translators=["flags"],
+    technique="Lean 4 theorem (IsQuadTree accepts iff the set is a true quadtree, by induction over the matrices) on a hand-written model + exhaustive perturbation correspondence + call order extracted from main.go",
+    theorems=["Texel.C14.localErr_none_iff", "Texel.C14.pairErr_none_iff", "Texel.C14.C14_iff", "Texel.C14.C14_validate_order", "Texel.C14.C14_doubling"],
+    streams=["isquad"], design_ref="DESIGN.md §6 C14",
+    trusted=["Model.QuadTree is a hand-written mirror of pointindex.IsQuadTree, tied by the isquad correspondence: every accepted built-in set x every tile matrix x every single-field perturbation (enumerated completely), verdict and failing check compared",
+             "cell sizes are exact rationals in the model; the code's single float division can differ from the exact ratio only within an ulp of the tolerance borders 1.99/2.01 (those two perturbations are run for 'no panic' only)",
+             "the order IsQuadTree-before-DeviationStats in validateTileMatrixSet is read from main.go by trgen flags; the binary is run on every built-in set to see an error message instead of a stack trace"],
+    level_text="Theorem: the validation accepts a list of tile matrices if and only if it is a true quadtree (square matrices and tiles, ids the decimal text of consecutive keys, one origin and corner, same tile size, each matrix doubling the previous, cell size halving within the code's tolerance) - "
+               "so every single broken condition is rejected. All 14 built-in sets and all single-field perturbations of the accepted ones (about 3 500 sets) are run through the real IsQuadTree and compared with the model and an independent declarative predicate; the tool is run on all 14 sets (error, never a panic). "
+               "pixel = cell size / 16 for accepted sets is checked in C03.",
+    level_note="Trusted: Lean kernel; model tied by exhaustive differential testing; one float division at the tolerance border.")
+PROPS["C15"] = dict(level="proof", module="Texel.Properties.C15", translators=[],
+    technique="Lean 4 theorems on an exact integer model of tile addressing (round trip, outside -> no tile, bounding box) + differential correspondence with tms20 on every built-in set within the code's 9-decimal rounding",
+    theorems=["Texel.C15.C15_roundtrip", "Texel.C15.C15_outside_left", "Texel.C15.C15_outside_right", "Texel.C15.C15_outside_row0", "Texel.C15.toNative_originCorner", "Texel.C15.C15_bbox"],
+    streams=["tile"], design_ref="DESIGN.md §6 C15",
+    trusted=["Model.Tile works in exact integers over a common denominator; tms20 works in float64 and rounds corners to 9 decimals: corners are compared within 1e-9 + a few ulp of the extent, interior points closer than that to a tile border are not constrained",
+             "the axis swap (IsLatLon / epsgAxesAreLatLon table) is outside the model: the harness applies IsLatLon itself and checks every built-in set's corners and bounding boxes in x,y order against exact rational corners"],
+    level_text="Theorems for every matrix, tile and point (exact arithmetic): a point strictly inside tile (c,r) is found in (c,r) for both corner conventions, points outside the extent map to no tile, the bounding box spans the origin-side corner of tile (0,0) to that of tile (width,height). "
+               "Every built-in set x every matrix without variable widths x corner, border and random tiles x interior points (also 1e-3 of a tile from a border) is run through the real FromNative/ToNative/MatrixBoundingBox and compared with the model and exact rational corners.",
+    level_note="Trusted: Lean kernel; float rounding of tms20 is handled by stated tolerances, not proved.")
+
 NOT_CLAIMED = {}
